@@ -113,7 +113,7 @@ def run(tier, seed):
     res.coverage.update({
         "evaluations": summary["ri_samples"] + n_loop + n_wma,
         "distinct_nontrivial": summary["distinct_nontrivial"],
-        "rule": "retryIn: %d generated option sets (zero = default fields, caps that bind at once, dyadic and random float multipliers / randomisation factors, magnitudes < 2^40 ns) x 4 schedule positions (reached through NextCh, one after Reset) x ~50 samples, plus gentle multipliers (17/16, 9/8, 33/32, 5/4, 3/2, 1.05, 1.1, 1.01) at positions 62..400 below a far MaxBackoff and two positions in the thousands, each sample with its known jitter draw; non-trivial = position >= 1 or after Reset. loops: fixed corpus (Reset-then-close, close during / before an hour's wait, MaxRetries = 2 with Reset) + random sequences of Next / NextCh / Reset / close / cancel / Next-with-concurrent-stop-at-a-generated-instant on three option classes (ms back-offs; 1 h back-offs; ms then 1 h) + loops whose back-off is zero or negative (Multiplier < 1 decayed below 1 ns; RandomizationFactor 1..5) told to stop and asked 40 more times, run with one P, + unbounded loops of 78..125 Next() calls with multiplier 17/16 or 9/8, each wait timed against its own lower edge; non-trivial = at least one waited attempt or one stop. WithMaxAttempts: n in -1..6, random success patterns, closer closed / context cancelled before, inside the k-th call of fn, or concurrently; non-trivial = n >= 1. Distinct by content." % summary["option_sets"],
+        "rule": "retryIn: %d generated option sets (zero = default fields, caps that bind at once, dyadic and random float multipliers / randomisation factors, magnitudes < 2^40 ns) x 4 schedule positions (reached through NextCh, one after Reset) x ~50 samples, plus gentle multipliers (17/16, 9/8, 33/32, 5/4, 3/2, 1.05, 1.1, 1.01) at positions 62..400 below a far MaxBackoff and two positions in the thousands, each sample with its known jitter draw; non-trivial = position >= 1 or after Reset. loops: fixed corpus (Reset-then-close, close during / before an hour's wait, MaxRetries = 2 with Reset) + random sequences of Next / NextCh / Reset / close / cancel / Next-with-concurrent-stop-at-a-generated-instant on three option classes (ms back-offs; 1 h back-offs; ms then 1 h) + loops whose back-off is zero or negative (Multiplier < 1 decayed below 1 ns; RandomizationFactor 1..5) told to stop and asked 40 more times, run with one P, + unbounded loops of 78..125 Next() calls with multiplier 17/16 or 9/8, each wait timed against its own lower edge; non-trivial = at least one waited attempt or one stop. WithMaxAttempts: n in -1..6, random success patterns (a third of the cases with failing calls that return context.Canceled / DeadlineExceeded, plain or wrapped, NOT from the outer context), closer closed / context cancelled before, inside the k-th call of fn, or concurrently; non-trivial = n >= 1. Distinct by content." % summary["option_sets"],
         "samples": summary["samples"],
         "distribution": {k: summary[k] for k in ("ri", "ri_samples", "option_sets", "loop", "wma", "loop_classes", "loop_waited_attempts", "loop_stops", "loop_async_stops", "loop_attempts_after_stop", "loop_hangs", "loop_known_shape", "wma_kinds", "draws_known")},
         "traces_validated_against_impl": n_loop + n_wma,
